@@ -186,9 +186,11 @@ Definition init_mro (h : hier) (c : cls) : cres_kind * list cls :=
 Definition class_mro (h : hier) (c : cls) : list cls := filter (is_class h) (snd (init_mro h c)).
 
 (* ---- members ------------------------------------------------------------------------------- *)
-(* A member: its name and its docstring: None = no docstring, Some 0 = the empty string '',
-   Some k (k > 0) = a non-empty docstring identified by k. *)
-Record member : Type := { m_name : N; m_doc : option N }.
+(* A member: its name, its docstring (None = no docstring, Some 0 = the empty string '',
+   Some k (k > 0) = a non-empty docstring identified by k) and whether it is hidden
+   (m_hidden o = `not o.isVisible`: the member itself or the class/module that holds it has
+   privacy class HIDDEN, e.g. through --privacy). *)
+Record member : Type := { m_name : N; m_doc : option N; m_hidden : bool }.
 Definition namespace := cls -> list member.        (* Class.contents, insertion order, names distinct *)
 
 (* contents.get(name) *)
@@ -232,15 +234,15 @@ Definition get_docstring (h : hier) (ns : namespace) (c : cls) (self : member) :
 (* templatewriter.util.nested_bases: for i, _ in enumerate(_mro): yield tuple(reversed(_mro[:(i+1)])) *)
 Definition nested_bases_of (m : list cls) : list (list cls) :=
   map (fun i => rev (firstn (S i) m)) (seq 0 (length m)).
-(* templatewriter.util.unmasked_attrs (visibility is C12's concern and is not modelled):
-   maybe_masking = {o.name for b in baselist[1:] for o in b.contents.values()}
-   [o for o in baselist[0].contents.values() if o.name not in maybe_masking] *)
+(* templatewriter.util.unmasked_attrs:
+   maybe_masking = {o.name for b in baselist[1:] for o in b.contents.values()}      (hidden members mask too)
+   [o for o in baselist[0].contents.values() if o.isVisible and o.name not in maybe_masking] *)
 Definition unmasked_attrs (ns : namespace) (baselist : list cls) : list member :=
   match baselist with
   | [] => []
   | b0 :: rest =>
     let maybe_masking := flat_map (fun b => map m_name (ns b)) rest in
-    filter (fun o => negb (mem (m_name o) maybe_masking)) (ns b0)
+    filter (fun o => negb (m_hidden o) && negb (mem (m_name o) maybe_masking)) (ns b0)
   end.
 (* templatewriter.util.class_members *)
 Definition class_members (h : hier) (ns : namespace) (c : cls) : list (list cls * list member) :=
@@ -258,7 +260,7 @@ Definition overrides (h : hier) (ns : namespace) (c : cls) (name : N) : option (
      fn 1 : payload = hierarchy ( (c (b ...)) ... )        -> ( (c kind (m ...) (raw ...)) ... )   for every key, in order
             kind: 0 ok | 1 ValueError (linearization) | 2 out of fuel | 3 ValueError (cycle)
             m = Class._mro after _init_mro ; raw = what mro.mro alone answers: ( status (c ...) )
-     fn 2 : payload = ( hierarchy members names )   members := ( (c ((name doc) ...)) ... )  doc := () | (k)
+     fn 2 : payload = ( hierarchy members names )   members := ( (c ((name doc hidden) ...)) ... )  doc := () | (k)  hidden := 0 | 1
             -> for every key c: ( c (find ...) (member ...) (chain ...) (ovr ...) )
                find   := for every name of `names`: () | (definer)
                member := for every own member: ( name (source ...) doc src )   doc := ()|(k)  src := ()|(cls)
@@ -279,7 +281,7 @@ Definition to_hier (s : sexp) : hier :=
   map (fun e => (to_N (nth_s 0 e), to_clist (nth_s 1 e))) (to_list s).
 
 Definition to_member (s : sexp) : member :=
-  {| m_name := to_N (nth_s 0 s); m_doc := to_option to_N (nth_s 1 s) |}.
+  {| m_name := to_N (nth_s 0 s); m_doc := to_option to_N (nth_s 1 s); m_hidden := to_bool (nth_s 2 s) |}.
 Definition to_namespace (s : sexp) : namespace :=
   let table := map (fun e => (to_N (nth_s 0 e), map to_member (to_list (nth_s 1 e)))) (to_list s) in
   fun c => match assoc c table with Some ms => ms | None => [] end.
